@@ -6,6 +6,7 @@ package sftp
 
 import (
 	"bytes"
+	"context"
 	"errors"
 	"fmt"
 	"io"
@@ -512,6 +513,18 @@ var c10Errors = []c10Err{
 	{"ErrSSHFxConnectionLost", ErrSSHFxConnectionLost, "code:7"},
 	{"ErrSSHFxOpUnsupported", ErrSSHFxOpUnsupported, "code:8"},
 	{"opaque", c10Opaque, "fail"},
+	// errors of the standard library that are none of not-exist / permission / end-of-file: failures carrying their text
+	{"io.ErrUnexpectedEOF", io.ErrUnexpectedEOF, "fail"},
+	{"PathError{ErrUnexpectedEOF}", &os.PathError{Op: "read", Path: "/p", Err: io.ErrUnexpectedEOF}, "fail"},
+	{"fmt{ErrUnexpectedEOF}", fmt.Errorf("ctx: %w", io.ErrUnexpectedEOF), "fail"},
+	{"io.ErrShortWrite", io.ErrShortWrite, "fail"},
+	{"io.ErrClosedPipe", io.ErrClosedPipe, "fail"},
+	{"os.ErrClosed", os.ErrClosed, "fail"},
+	{"os.ErrExist", os.ErrExist, "fail"},
+	{"EEXIST", syscall.EEXIST, "fail"},
+	{"ENOSPC", syscall.ENOSPC, "fail"},
+	{"PathError{EEXIST}", &os.PathError{Op: "mkdir", Path: "/p", Err: syscall.EEXIST}, "fail"},
+	{"context.Canceled", context.Canceled, "fail"},
 }
 
 func c10KindOf(err error, text string) string {
